@@ -13,14 +13,15 @@ Inductive flow := FNormal | FAbort (kind arg : nat).
 (** [compose_std_command]: for 0,1,2 a missing entry or one of the [OpenFile::Std*] objects leaves
     the [std::process::Command] default / [Stdio::inherit()], i.e. the child gets brush's own
     descriptor of THAT number; other descriptors are injected as they are. *)
-Definition is_std (w : world) (id : nat) : bool :=
-  match nth_error (descs w) id with Some d => match d_std d with Some _ => true | None => false end | None => false end.
+(** The three initial open file descriptions (ids 0, 1, 2) are brush's [OpenFile::Stdin],
+    [OpenFile::Stdout], [OpenFile::Stderr]; no other description of that kind is ever created. *)
+Definition is_std (id : nat) : bool := Nat.ltb id 3.
 
-Definition child_view (w : world) (L P : tbl) : nat -> entry := fun n =>
+Definition child_view (L P : tbl) : nat -> entry := fun n =>
   if Nat.ltb n 3 then
     match try_fd L P n with
     | None => Some n
-    | Some id => if is_std w id then Some n else Some id
+    | Some id => if is_std id then Some n else Some id
     end
   else try_fd L P n.
 
@@ -33,7 +34,7 @@ Definition materialize (L P : tbl) : tbl :=
 Definition run_action (m : msgtable) (w : world) (L P : tbl) (a : action) : world :=
   match a with
   | AEcho tag => echo m w (try_fd L P) tag
-  | AXProbe tag => probe w (child_view w L P) tag
+  | AXProbe tag => probe w (child_view L P) tag
   end.
 
 (** a redirection of a simple command failed: [writeln!(params.stderr(shell), "error: {e}")?] *)
